@@ -121,19 +121,19 @@ func clip(s string, n int) string {
 // drives execution i (the tape while generating, the recorded decisions when
 // replaying); record receives the decisions consumed by execution i.
 func Execute(c *Case, chooser func(i int) sched.Chooser, record func(i int, mark bool), agg *core.Agg) (*failure, uint64, error) {
-	loads := map[uint64]*driver.Loaded{}
-	load := func(seed uint64) (*driver.Loaded, error) {
-		if l, ok := loads[seed]; ok {
+	loads := map[string]*driver.Loaded{}
+	load := func(seed uint64, roots []string) (*driver.Loaded, error) {
+		sorted := append([]string(nil), roots...)
+		sort.Strings(sorted)
+		key := fmt.Sprintf("%d|%s", seed, strings.Join(sorted, ","))
+		if l, ok := loads[key]; ok {
 			return l, nil
 		}
-		l, err := driver.LoadAllOrder(c.World, seed)
+		l, err := driver.LoadFor(c.World, seed, roots) // only the roots and what they depend on is loaded
 		if err == nil {
-			loads[seed] = l
+			loads[key] = l
 		}
 		return l, err
-	}
-	if _, err := load(0); err != nil {
-		return nil, 0, core.Infra("%v", err)
 	}
 	log := core.NewHasher()
 	type ref struct {
@@ -158,7 +158,7 @@ func Execute(c *Case, chooser func(i int) sched.Chooser, record func(i int, mark
 				// the identical decisions again
 				ch = core.ReplayTape(c.Execs[i].Tape)
 			}
-			l, err := load(spec.Ex.ParseSeed)
+			l, err := load(spec.Ex.ParseSeed, spec.Ex.Roots)
 			if err != nil {
 				return nil, 0, core.Infra("%v", err)
 			}
